@@ -1,6 +1,7 @@
 package sym
 
 import (
+	"fmt"
 	"math/big"
 
 	"golang.org/x/tools/go/ssa"
@@ -24,9 +25,8 @@ func bitsStub(name string) interceptFn {
 		}
 	case "math/bits.Mul64":
 		return func(ex *Exec, a []Value, c *ssa.CallCommon) Value {
-			x, y := BVZeroExt(64, bv64(a[0])), BVZeroExt(64, bv64(a[1]))
-			p := BVBin("bvmul", x, y)
-			return TupleV{bvResult(BVExtract(127, 64, p)), bvResult(BVExtract(63, 0, p))}
+			hi, lo := ex.mul64(bv64(a[0]), bv64(a[1]))
+			return TupleV{bvResult(hi), bvResult(lo)}
 		}
 	case "math/bits.Len", "math/bits.Len64":
 		return func(ex *Exec, a []Value, c *ssa.CallCommon) Value {
@@ -52,4 +52,35 @@ func bvResult(t *Term) IntV {
 		return ConstBig(t.Val)
 	}
 	return IntV{T: t}
+}
+
+// mul64 is the 64x64->128 product. Constant operands fold; otherwise the product is an
+// uninterpreted pair (hi, lo) per operand pair with the axiom "the product is zero iff a
+// factor is zero" (and the 0/1 identities) - the fast paths and the reference share it, so
+// the solver decides sign/zero/overflow bookkeeping and never bit-blasts a multiplier.
+func (ex *Exec) mul64(x, y *Term) (*Term, *Term) {
+	if x.IsConst() && y.IsConst() {
+		p := new(big.Int).Mul(x.Val, y.Val)
+		return BVConst(64, new(big.Int).Rsh(p, 64)), BVConst(64, p)
+	}
+	if x.id > y.id {
+		x, y = y, x
+	}
+	key := [2]*Term{x, y}
+	if ex.mulMemo == nil {
+		ex.mulMemo = map[[2]*Term][2]*Term{}
+	}
+	if r, ok := ex.mulMemo[key]; ok {
+		return r[0], r[1]
+	}
+	ex.ufSeq++
+	hi := Var(fmt.Sprintf("fv64!mulhi!%d", ex.ufSeq), Sort(64))
+	lo := Var(fmt.Sprintf("fv64!mullo!%d", ex.ufSeq), Sort(64))
+	z := BVConst(64, bigZero)
+	one := BVConst(64, bigOneI)
+	ex.assumeT(Eq(And(Eq(hi, z), Eq(lo, z)), Or(Eq(x, z), Eq(y, z))))
+	ex.assumeT(Implies(Eq(x, one), And(Eq(hi, z), Eq(lo, y))))
+	ex.assumeT(Implies(Eq(y, one), And(Eq(hi, z), Eq(lo, x))))
+	ex.mulMemo[key] = [2]*Term{hi, lo}
+	return hi, lo
 }
